@@ -31,6 +31,12 @@ func c02Core() gen.Features {
 		NestedReturn: true, DeclInBranch: true, IllTyped: 3, NoMatchBindShadow: true}
 }
 
+// Content-Type spellings for the request-binding workload: whether a body is parsed into
+// `input` must not depend on the execution mode, whatever rule decides it.
+var c02ContentTypes = []string{"application/json", "application/json; charset=utf-8", "text/plain", "application/x-www-form-urlencoded",
+	"Application/JSON", "APPLICATION/JSON; charset=UTF-8", "application/json-patch+json", "application/jsonx", "application/vnd.api+json", " application/json",
+	"application/json;charset=utf-8", "application/json ; x=1", "text/json", "application/ld+json", "multipart/form-data; boundary=x", "*/*", "application/jso"}
+
 type c02Flag struct {
 	Name  string
 	Apply func(f *gen.Features)
@@ -253,7 +259,7 @@ func checkC02(tier string) {
 		case 1:
 			h := map[string][]string{}
 			if brng.Intn(3) > 0 {
-				h["Content-Type"] = []string{[]string{"application/json", "application/json; charset=utf-8", "text/plain", "application/x-www-form-urlencoded"}[brng.Intn(4)]}
+				h["Content-Type"] = []string{c02ContentTypes[brng.Intn(len(c02ContentTypes))]}
 			}
 			breqs = append(breqs, HReq{M: "POST", P: "/e/" + seg + qpool[brng.Intn(len(qpool))], B: sp(bpool[brng.Intn(len(bpool))]), H: h})
 		case 2:
